@@ -1,7 +1,265 @@
-(* C05 placeholder: theorems land with Proofs/WorldProofs.v *)
-From Coq Require Import ZArith List.
-From V Require Import Result World.
+(* C05 -- block lookups by address or offset equal a fresh scan at every scope: byte_blocks_on/at (and the code_ /
+   data_ variants) on a byte interval, section, module or IR and the _offset variants on a byte interval return each
+   qualifying block exactly once and nothing else; 'on' = non-zero size and byte range intersects the query, 'at' =
+   first address (offset) is a member of the query range; intervals without address contribute nothing to address
+   queries; at section / module / IR scope only blocks (or parts) outside their interval's declared extent may differ.
+   Model: Model/World.v (the lazily maintained interval trees `tree`, force, nodes_on_tree / nodes_at_tree,
+   bi_blocks_*, sec_blocks_*, mod_lift, ir_lift), Model/LazyTree.v, Model/WorldRun.v (kfilter), Model/WorldGuard.v.
+   Invariants: Forest, SyncAll, NonNeg (parts of WorldInv.InvAll).  A lookup returns (world', answer): world' differs
+   from the world only in the lazy trees (`agree`) and satisfies the same invariants.
+   Only property theorems here; proofs in Proofs/LookupBase.v, LookupProofs.v, ScheduleProofs.v, SyncProofs.v,
+   WorldInv.v, WorldProps.v. *)
+From Coq Require Import ZArith List Bool.
+From V Require Import Result LazyTree World WorldGuard WorldRun ForestDefs InvDefs WorldInv WorldProps.
+From V Require Import LookupBase LookupProofs ScheduleProofs.
 Import ListNotations.
-Theorem C05_new_detached : forall w n k u a s f nm p, par (step' w (ONew n k u a s f nm p)) n = None.
-Proof. intros. unfold step', step, par, getn. destruct k; cbn; unfold upd; rewrite Z.eqb_refl; reflexivity. Qed.
-Print Assumptions C05_new_detached.
+Open Scope Z_scope.
+
+(* the two selection criteria.  in_q x q (World.v) is: qstart <= x < qstop and (x - qstart) mod qstep = 0 *)
+Theorem C05_on_criterion : forall lo size q, on_spec lo size q = true <->
+  0 < size /\ Z.max (qstart q) lo < Z.min (qstop q) (lo + size).
+Proof. exact on_spec_true. Qed.
+
+(* ---------- byte-interval scope: exact ---------- *)
+
+Theorem C05_bi_blocks_on_exact : forall w known bi q, reachable_k w known -> kindof w bi = KBI ->
+  NoDup (snd (bi_blocks_on w bi q)) /\
+  forall b, In b (snd (bi_blocks_on w bi q)) <->
+    In b (kids w bi) /\ exists a, naddr (getn w bi) = Some a /\
+      on_spec (a + noff (getn w b)) (nsize (getn w b)) q = true.
+Proof.
+  intros w known bi q R. exact (bi_blocks_on_exact w known bi q (reach_forest w known R) (reach_sync w known R) (reach_nonneg w known R)).
+Qed.
+
+Theorem C05_bi_blocks_at_exact : forall w known bi q, reachable_k w known -> kindof w bi = KBI ->
+  NoDup (snd (bi_blocks_at w bi q)) /\
+  forall b, In b (snd (bi_blocks_at w bi q)) <->
+    In b (kids w bi) /\ exists a, naddr (getn w bi) = Some a /\ in_q (a + noff (getn w b)) q = true.
+Proof.
+  intros w known bi q R. exact (bi_blocks_at_exact w known bi q (reach_forest w known R) (reach_sync w known R) (reach_nonneg w known R)).
+Qed.
+
+Theorem C05_bi_blocks_on_offset_exact : forall w known bi q, reachable_k w known -> kindof w bi = KBI ->
+  NoDup (snd (bi_blocks_on_off w bi q)) /\
+  forall b, In b (snd (bi_blocks_on_off w bi q)) <->
+    In b (kids w bi) /\ on_spec (noff (getn w b)) (nsize (getn w b)) q = true.
+Proof.
+  intros w known bi q R. exact (bi_blocks_on_off_exact w bi q (reach_sync w known R) (reach_nonneg w known R)).
+Qed.
+
+Theorem C05_bi_blocks_at_offset_exact : forall w known bi q, reachable_k w known -> kindof w bi = KBI ->
+  NoDup (snd (bi_blocks_at_off w bi q)) /\
+  forall b, In b (snd (bi_blocks_at_off w bi q)) <-> In b (kids w bi) /\ in_q (noff (getn w b)) q = true.
+Proof.
+  intros w known bi q R. exact (bi_blocks_at_off_exact w bi q (reach_sync w known R) (reach_nonneg w known R)).
+Qed.
+
+(* an interval without an address answers address queries with nothing (and does not even build its index) *)
+Theorem C05_no_address_no_blocks : forall w bi q, naddr (getn w bi) = None ->
+  bi_blocks_on w bi q = (w, []) /\ bi_blocks_at w bi q = (w, []).
+Proof. intros w bi q H. exact (conj (bi_blocks_on_noaddr w bi q H) (bi_blocks_at_noaddr w bi q H)). Qed.
+
+(* ---------- the code_ / data_ variants: exactly the blocks of that kind, still without duplicates ---------- *)
+
+Theorem C05_code_filter : forall w l b, In b (kfilter w 1 l) <-> In b l /\ kindof w b = KCode.
+Proof. exact kfilter_code. Qed.
+Theorem C05_data_filter : forall w l b, In b (kfilter w 2 l) <-> In b l /\ kindof w b = KData.
+Proof. exact kfilter_data. Qed.
+Theorem C05_byte_filter : forall w kf l, kf <> 1 -> kf <> 2 -> kfilter w kf l = l.
+Proof. exact kfilter_all. Qed.
+Theorem C05_filter_once : forall w kf l, NoDup l -> NoDup (kfilter w kf l).
+Proof. exact kfilter_NoDup. Qed.
+
+(* ---------- section / module / IR scope: what the implementation computes, exactly ----------
+   the blocks that the byte-interval lookup reports for the intervals that byte_intervals_on reports *)
+
+Theorem C05_sec_blocks_on_exact : forall w known s q, reachable_k w known -> kindof w s = KSec ->
+  (GoodK known (fst (sec_blocks_on w s q)) /\ agree w (fst (sec_blocks_on w s q))) /\
+  NoDup (snd (sec_blocks_on w s q)) /\
+  forall b, In b (snd (sec_blocks_on w s q)) <->
+    exists bi, In bi (snd (sec_bis_on w s q)) /\ bi_on_spec w bi q b.
+Proof. intros w known s q R. exact (sec_blocks_on_exact known w s q (reach_goodk w known R)). Qed.
+
+Theorem C05_sec_blocks_at_exact : forall w known s q, reachable_k w known -> kindof w s = KSec ->
+  (GoodK known (fst (sec_blocks_at w s q)) /\ agree w (fst (sec_blocks_at w s q))) /\
+  NoDup (snd (sec_blocks_at w s q)) /\
+  forall b, In b (snd (sec_blocks_at w s q)) <->
+    exists bi, In bi (snd (sec_bis_on w s q)) /\ bi_at_spec w bi q b.
+Proof. intros w known s q R. exact (sec_blocks_at_exact known w s q (reach_goodk w known R)). Qed.
+
+(* ... where byte_intervals_on is itself exact (C06) *)
+Theorem C05_sec_bis_on_members : forall w known s q bi, reachable_k w known -> kindof w s = KSec ->
+  (In bi (snd (sec_bis_on w s q)) <->
+   In bi (kids w s) /\ exists a, naddr (getn w bi) = Some a /\ on_spec a (nsize (getn w bi)) q = true).
+Proof. intros w known s q bi R. exact (sec_bis_on_In known w s q bi (reach_goodk w known R)). Qed.
+
+Theorem C05_mod_blocks_on_exact : forall w known m q, reachable_k w known ->
+  (GoodK known (fst (mod_lift sec_blocks_on w m q)) /\ agree w (fst (mod_lift sec_blocks_on w m q))) /\
+  NoDup (snd (mod_lift sec_blocks_on w m q)) /\
+  forall b, In b (snd (mod_lift sec_blocks_on w m q)) <->
+    exists s, In s (secs_of w m) /\
+    exists bi, In bi (snd (sec_bis_on w s q)) /\ bi_on_spec w bi q b.
+Proof. intros w known m q R. exact (mod_blocks_on_exact known w m q (reach_goodk w known R)). Qed.
+
+Theorem C05_mod_blocks_at_exact : forall w known m q, reachable_k w known ->
+  (GoodK known (fst (mod_lift sec_blocks_at w m q)) /\ agree w (fst (mod_lift sec_blocks_at w m q))) /\
+  NoDup (snd (mod_lift sec_blocks_at w m q)) /\
+  forall b, In b (snd (mod_lift sec_blocks_at w m q)) <->
+    exists s, In s (secs_of w m) /\
+    exists bi, In bi (snd (sec_bis_on w s q)) /\ bi_at_spec w bi q b.
+Proof. intros w known m q R. exact (mod_blocks_at_exact known w m q (reach_goodk w known R)). Qed.
+
+Theorem C05_ir_blocks_on_exact : forall w known ir q, reachable_k w known ->
+  (GoodK known (fst (ir_lift sec_blocks_on w ir q)) /\ agree w (fst (ir_lift sec_blocks_on w ir q))) /\
+  NoDup (snd (ir_lift sec_blocks_on w ir q)) /\
+  forall b, In b (snd (ir_lift sec_blocks_on w ir q)) <->
+    exists m, In m (kids w ir) /\ exists s, In s (secs_of w m) /\
+    exists bi, In bi (snd (sec_bis_on w s q)) /\ bi_on_spec w bi q b.
+Proof. intros w known ir q R. exact (ir_blocks_on_exact known w ir q (reach_goodk w known R)). Qed.
+
+Theorem C05_ir_blocks_at_exact : forall w known ir q, reachable_k w known ->
+  (GoodK known (fst (ir_lift sec_blocks_at w ir q)) /\ agree w (fst (ir_lift sec_blocks_at w ir q))) /\
+  NoDup (snd (ir_lift sec_blocks_at w ir q)) /\
+  forall b, In b (snd (ir_lift sec_blocks_at w ir q)) <->
+    exists m, In m (kids w ir) /\ exists s, In s (secs_of w m) /\
+    exists bi, In bi (snd (sec_bis_on w s q)) /\ bi_at_spec w bi q b.
+Proof. intros w known ir q R. exact (ir_blocks_at_exact known w ir q (reach_goodk w known R)). Qed.
+
+(* ---------- section / module / IR scope: the envelope of the property statement ----------
+   sound (everything returned qualifies by the fresh-scan criterion), complete for blocks inside their interval's
+   declared extent [a, a + size(interval)), and without duplicates *)
+
+Theorem C05_sec_blocks_on_envelope : forall w known s q, reachable_k w known -> kindof w s = KSec ->
+  (GoodK known (fst (sec_blocks_on w s q)) /\ agree w (fst (sec_blocks_on w s q))) /\
+  NoDup (snd (sec_blocks_on w s q)) /\
+  (forall b, In b (snd (sec_blocks_on w s q)) ->
+     exists bi a, In bi (kids w s) /\ In b (kids w bi) /\ naddr (getn w bi) = Some a /\
+       on_spec (a + noff (getn w b)) (nsize (getn w b)) q = true) /\
+  (forall bi b a, In bi (kids w s) -> In b (kids w bi) -> naddr (getn w bi) = Some a ->
+     0 < nsize (getn w b) ->
+     Z.max (Z.max (qstart q) (a + noff (getn w b))) a <
+     Z.min (Z.min (qstop q) (a + noff (getn w b) + nsize (getn w b))) (a + nsize (getn w bi)) ->
+     In b (snd (sec_blocks_on w s q))).
+Proof. intros w known s q R. exact (sec_blocks_on_envelope known w s q (reach_goodk w known R)). Qed.
+
+Theorem C05_sec_blocks_at_envelope : forall w known s q, reachable_k w known -> kindof w s = KSec ->
+  (GoodK known (fst (sec_blocks_at w s q)) /\ agree w (fst (sec_blocks_at w s q))) /\
+  NoDup (snd (sec_blocks_at w s q)) /\
+  (forall b, In b (snd (sec_blocks_at w s q)) ->
+     exists bi a, In bi (kids w s) /\ In b (kids w bi) /\ naddr (getn w bi) = Some a /\
+       in_q (a + noff (getn w b)) q = true) /\
+  (forall bi b a, In bi (kids w s) -> In b (kids w bi) -> naddr (getn w bi) = Some a ->
+     in_q (a + noff (getn w b)) q = true ->
+     a <= a + noff (getn w b) < a + nsize (getn w bi) ->
+     In b (snd (sec_blocks_at w s q))).
+Proof. intros w known s q R. exact (sec_blocks_at_envelope known w s q (reach_goodk w known R)). Qed.
+
+Theorem C05_mod_blocks_on_envelope : forall w known m q, reachable_k w known ->
+  (GoodK known (fst (mod_lift sec_blocks_on w m q)) /\ agree w (fst (mod_lift sec_blocks_on w m q))) /\
+  NoDup (snd (mod_lift sec_blocks_on w m q)) /\
+  (forall b, In b (snd (mod_lift sec_blocks_on w m q)) ->
+     exists s, In s (secs_of w m) /\
+     exists bi a, In bi (kids w s) /\ In b (kids w bi) /\ naddr (getn w bi) = Some a /\
+       on_spec (a + noff (getn w b)) (nsize (getn w b)) q = true) /\
+  (forall s bi b a, In s (secs_of w m) -> In bi (kids w s) -> In b (kids w bi) ->
+     naddr (getn w bi) = Some a -> 0 < nsize (getn w b) ->
+     Z.max (Z.max (qstart q) (a + noff (getn w b))) a <
+     Z.min (Z.min (qstop q) (a + noff (getn w b) + nsize (getn w b))) (a + nsize (getn w bi)) ->
+     In b (snd (mod_lift sec_blocks_on w m q))).
+Proof. intros w known m q R. exact (mod_blocks_on_envelope known w m q (reach_goodk w known R)). Qed.
+
+Theorem C05_mod_blocks_at_envelope : forall w known m q, reachable_k w known ->
+  (GoodK known (fst (mod_lift sec_blocks_at w m q)) /\ agree w (fst (mod_lift sec_blocks_at w m q))) /\
+  NoDup (snd (mod_lift sec_blocks_at w m q)) /\
+  (forall b, In b (snd (mod_lift sec_blocks_at w m q)) ->
+     exists s, In s (secs_of w m) /\
+     exists bi a, In bi (kids w s) /\ In b (kids w bi) /\ naddr (getn w bi) = Some a /\
+       in_q (a + noff (getn w b)) q = true) /\
+  (forall s bi b a, In s (secs_of w m) -> In bi (kids w s) -> In b (kids w bi) ->
+     naddr (getn w bi) = Some a -> in_q (a + noff (getn w b)) q = true ->
+     a <= a + noff (getn w b) < a + nsize (getn w bi) ->
+     In b (snd (mod_lift sec_blocks_at w m q))).
+Proof. intros w known m q R. exact (mod_blocks_at_envelope known w m q (reach_goodk w known R)). Qed.
+
+Theorem C05_ir_blocks_on_envelope : forall w known ir q, reachable_k w known ->
+  (GoodK known (fst (ir_lift sec_blocks_on w ir q)) /\ agree w (fst (ir_lift sec_blocks_on w ir q))) /\
+  NoDup (snd (ir_lift sec_blocks_on w ir q)) /\
+  (forall b, In b (snd (ir_lift sec_blocks_on w ir q)) ->
+     exists m, In m (kids w ir) /\ exists s, In s (secs_of w m) /\
+     exists bi a, In bi (kids w s) /\ In b (kids w bi) /\ naddr (getn w bi) = Some a /\
+       on_spec (a + noff (getn w b)) (nsize (getn w b)) q = true) /\
+  (forall m s bi b a, In m (kids w ir) -> In s (secs_of w m) -> In bi (kids w s) ->
+     In b (kids w bi) -> naddr (getn w bi) = Some a -> 0 < nsize (getn w b) ->
+     Z.max (Z.max (qstart q) (a + noff (getn w b))) a <
+     Z.min (Z.min (qstop q) (a + noff (getn w b) + nsize (getn w b))) (a + nsize (getn w bi)) ->
+     In b (snd (ir_lift sec_blocks_on w ir q))).
+Proof. intros w known ir q R. exact (ir_blocks_on_envelope known w ir q (reach_goodk w known R)). Qed.
+
+Theorem C05_ir_blocks_at_envelope : forall w known ir q, reachable_k w known ->
+  (GoodK known (fst (ir_lift sec_blocks_at w ir q)) /\ agree w (fst (ir_lift sec_blocks_at w ir q))) /\
+  NoDup (snd (ir_lift sec_blocks_at w ir q)) /\
+  (forall b, In b (snd (ir_lift sec_blocks_at w ir q)) ->
+     exists m, In m (kids w ir) /\ exists s, In s (secs_of w m) /\
+     exists bi a, In bi (kids w s) /\ In b (kids w bi) /\ naddr (getn w bi) = Some a /\
+       in_q (a + noff (getn w b)) q = true) /\
+  (forall m s bi b a, In m (kids w ir) -> In s (secs_of w m) -> In bi (kids w s) ->
+     In b (kids w bi) -> naddr (getn w bi) = Some a -> in_q (a + noff (getn w b)) q = true ->
+     a <= a + noff (getn w b) < a + nsize (getn w bi) ->
+     In b (snd (ir_lift sec_blocks_at w ir q))).
+Proof. intros w known ir q R. exact (ir_blocks_at_envelope known w ir q (reach_goodk w known R)). Qed.
+
+(* non-vacuity: IR 1 > module 2 > section 3 > intervals 4 (address 100, size 50) and 8 (no address).  Blocks 5 (code,
+   size 10, offset 0), 6 (data, size 0, offset 10), 7 (data, size 5, offset 20) in 4; block 9 (code) in 8.  The indexes
+   are forced (OTouch), then: offset of 5 := 30, address of 4 := 200, size of 6 := 3, index forced again, offset of
+   7 := 48 (sticks out of the interval), 9 moved into 4 with offset 60 (entirely outside the declared extent). *)
+Example C05_example :
+  let Q a b s := {| qstart := a; qstop := b; qstep := s |} in
+  let ops1 := [ONew 1 KIR 101 None 0 0 0 PNone; ONew 2 KMod 102 None 0 0 0 PNone; ONew 3 KSec 103 None 0 0 0 PNone;
+     ONew 4 KBI 104 (Some 100) 50 0 0 PNone; ONew 5 KCode 105 None 10 0 0 PNone; ONew 6 KData 106 None 0 10 0 PNone;
+     ONew 7 KData 107 None 5 20 0 PNone; ONew 8 KBI 108 None 50 0 0 PNone; ONew 9 KCode 109 None 4 0 0 PNone;
+     OModAppend 1 2; OSetParent 3 (Some 2); OSetParent 4 (Some 3); OSetParent 8 (Some 3);
+     OSet 4 [KCode; KData] SUpdate [[5; 6]; [7]]; OSetParent 9 (Some 8); OTouch 4; OTouch 3] in
+  let ops2 := [OAttrOff 5 30; OAttrAddr 4 (Some 200); OAttrSize 6 3; OTouch 4; OAttrOff 7 48;
+               OSetParent 9 (Some 4); OAttrOff 9 60] in
+  let wa := fst (run_guarded w0 [] ops1) in
+  let wb := fst (run_guarded w0 [] (ops1 ++ ops2)) in
+  all_guarded_ok w0 [] (ops1 ++ ops2) = true /\
+  (snd (bi_blocks_on wa 4 (Q 100 150 1)), snd (bi_blocks_at wa 4 (Q 100 150 10)),
+   snd (bi_blocks_on_off wa 4 (Q 0 50 1)), snd (bi_blocks_at_off wa 4 (Q 10 21 10)), snd (bi_blocks_on wa 8 (Q 0 300 1)))
+  = ([5; 7], [5; 6; 7], [5; 7], [6; 7], []) /\
+  (snd (bi_blocks_on wb 4 (Q 100 150 1)), snd (bi_blocks_on wb 4 (Q 200 300 1)), snd (bi_blocks_at wb 4 (Q 200 300 2)),
+   snd (bi_blocks_on_off wb 4 (Q 0 50 1)), snd (bi_blocks_at_off wb 4 (Q 10 100 10)))
+  = ([], [5; 6; 7; 9], [5; 6; 7; 9], [5; 6; 7], [5; 6; 9]) /\
+  (snd (sec_blocks_on wb 3 (Q 200 300 1)), snd (mod_lift sec_blocks_on wb 2 (Q 200 300 1)),
+   snd (ir_lift sec_blocks_on wb 1 (Q 200 300 1)), snd (ir_lift sec_blocks_at wb 1 (Q 200 300 1)))
+  = ([5; 6; 7; 9], [5; 6; 7; 9], [5; 6; 7; 9], [5; 6; 7; 9]) /\
+  (kfilter wb 1 (snd (ir_lift sec_blocks_on wb 1 (Q 200 300 1))), kfilter wb 2 (snd (ir_lift sec_blocks_on wb 1 (Q 200 300 1))))
+  = ([5; 9], [6; 7]) /\
+  (* the envelope is real: beyond the interval's extent the interval scope still reports 7 and 9, the section does not *)
+  (snd (bi_blocks_on wb 4 (Q 251 300 1)), snd (sec_blocks_on wb 3 (Q 251 300 1))) = ([7; 9], []).
+Proof. vm_compute. repeat split. Qed.
+
+Print Assumptions C05_on_criterion.
+Print Assumptions C05_bi_blocks_on_exact.
+Print Assumptions C05_bi_blocks_at_exact.
+Print Assumptions C05_bi_blocks_on_offset_exact.
+Print Assumptions C05_bi_blocks_at_offset_exact.
+Print Assumptions C05_no_address_no_blocks.
+Print Assumptions C05_code_filter.
+Print Assumptions C05_data_filter.
+Print Assumptions C05_byte_filter.
+Print Assumptions C05_filter_once.
+Print Assumptions C05_sec_blocks_on_exact.
+Print Assumptions C05_sec_blocks_at_exact.
+Print Assumptions C05_sec_bis_on_members.
+Print Assumptions C05_mod_blocks_on_exact.
+Print Assumptions C05_mod_blocks_at_exact.
+Print Assumptions C05_ir_blocks_on_exact.
+Print Assumptions C05_ir_blocks_at_exact.
+Print Assumptions C05_sec_blocks_on_envelope.
+Print Assumptions C05_sec_blocks_at_envelope.
+Print Assumptions C05_mod_blocks_on_envelope.
+Print Assumptions C05_mod_blocks_at_envelope.
+Print Assumptions C05_ir_blocks_on_envelope.
+Print Assumptions C05_ir_blocks_at_envelope.
+Print Assumptions C05_example.
